@@ -231,6 +231,7 @@ func init() {
 			{Name: "hugek", QShards: 2, TShards: 8, Run: c12HugeK},
 			{Name: "readers", Race: true, QShards: 2, TShards: 4, Run: c12Readers},
 			{Name: "parallel", Race: true, Run: sequtilParallel("revcomp")},
+			firstCallUnit(firstSequtilRC),
 		},
 	})
 }
